@@ -69,6 +69,14 @@ def build_doc(d):
     return p
 
 
+def reparser(d):
+    import AdvancedHTMLParser as AHP
+    p2 = AHP.AdvancedHTMLParser()
+    if d.get('reuse'):
+        p2.parseStr('<!DOCTYPE html PUBLIC "old"><section class="old"><i>junk<b>')
+    return p2
+
+
 def all_elements(root):
     out = [root]
     for c in root.children:
@@ -160,6 +168,8 @@ class Check(PropCheck):
         for i in range(n):
             d = self.random_doc(rng)
             d['via'] = 'api' if i % 3 else 'parse'
+            if i % 4 == 1:
+                d['reuse'] = True       # the serialisation is parsed by a parser object that parsed another document before
             yield Case(d, 'random')
         # the strict lexer against the real tokenizer on richly rendered token sequences (C02's renderer) and on
         # corrupted variants (on which lexStrict may answer none, never a different token list)
@@ -274,7 +284,7 @@ class Check(PropCheck):
     def features(self, d):
         if d['via'] == 'lex':
             return ['via:lex']
-        fs = set(['via:' + d['via'], 'doctype' if d['doctype'] else 'no-doctype',
+        fs = set((['reused-parser'] if d.get('reuse') else []) + ['via:' + d['via'], 'doctype' if d['doctype'] else 'no-doctype',
                   'single-root' if (len(d['blocks']) == 1 and d['blocks'][0][0] == 'e') else 'multi-root'])
 
         def walk(b, depth):
@@ -342,6 +352,8 @@ class Check(PropCheck):
             yield dict(d, doctype=None)
         if d['via'] != 'api':
             yield dict(d, via='api')
+        if d.get('reuse'):
+            yield dict(d, reuse=False)
 
     # ---- both sides ------------------------------------------------------------------------------------------------
     def doc_of(self, d):
@@ -378,7 +390,7 @@ class Check(PropCheck):
         p = self.doc_of(d)
         html = p.getHTML()
         toks = parsing.tokenize(html)
-        p2 = AHP.AdvancedHTMLParser()
+        p2 = reparser(d)
         p2.parseStr(html)
         root2 = p2.getRoot()
         second = root2 is not None and root2.tagName == WRAPPER
@@ -440,7 +452,7 @@ class Check(PropCheck):
                     return ('serialise-raises', '%s of <%s> raised %s: %s' % (name, e.tagName, type(ex).__name__, ex))
                 if not isinstance(v, str):
                     return ('not-a-string', '%s of <%s> is %s' % (name, e.tagName, type(v).__name__))
-        p2 = AHP.AdvancedHTMLParser()
+        p2 = reparser(d)
         try:
             p2.parseStr(html)
         except Exception as e:     # noqa
